@@ -198,4 +198,35 @@ PROPS = {
             "learners that reject per-group scale factors are only checked with a scalar factor",
         ],
     },
+    "C11": {
+        "harness": "c11_fit",
+        "level": "exploration",
+        "rule": ("one run = one complete fit() of a linear (4 regularisers, 4 scaling modes) or gradient-boosting model (random weak-learner pools, shrinkage "
+                 "off/global/local, 6 subsampling modes, gboost/tboost scaling, max_rounds 10-18, patience 1-4, epsilon 1e-8..1e-2) on a seeded dataset with a loss "
+                 "of the matching family, both tuners, k-fold / random splitters with 2-5 folds, executed under the run's simulated core count (1-16), dataset pool "
+                 "(1-16) and seeded schedule; afterwards every (trial, fold) and the final statistics are recomputed by predicting with the stored models; "
+                 "non-trivial = at least 2 simulated threads and 1 context switch; distinct = distinct trace hash"),
+        "batches": [
+            {"name": "plain", "cfg": "plain", "tiers": ["quick", "thorough"], "runs": {"quick": 16000, "thorough": 800000},
+             "wall_cap": {"quick": 240, "thorough": 3000}},
+            {"name": "tsan", "cfg": "tsan", "tiers": ["quick", "thorough"], "runs": {"quick": 1600, "thorough": 80000},
+             "extra": ["--set", "max_cores=6"], "wall_cap": {"quick": 240, "thorough": 3000}},
+            {"name": "asan", "cfg": "asan", "tiers": ["quick", "thorough"], "runs": {"quick": 2400, "thorough": 80000},
+             "wall_cap": {"quick": 240, "thorough": 3000}},
+        ],
+        "gate": {"quick": 44, "thorough": 300},
+        "shrink": [("folds", 2), ("pool", 1), ("cores", 2), ("max_samples", 24), ("sim_faults", 0), ("p_spurious_ppm", 0), ("p_eagain_ppm", 0)],
+        "expected_probes": ["linear_fits", "gboost_fits", "fits_with_several_trials", "fold_statistics_recomputed", "fold_models_with_boosting_rounds",
+                            "fold_models_stopped_early", "rt_futex_blocked", "rt_mutex_contended"],
+        "real": REAL_COMMON + ["linear_t::fit / gboost_model_t::fit end to end: ml::tune and its pool, tuners, splitters, solvers, early stopping, gboost::result_t, "
+                               "weak learner fit / merge / scale, ml::result_t store / statistics"],
+        "stub": STUB_COMMON,
+        "assumptions": ASSUME_COMMON + [
+            "SCOPE: the sentence of C11 about the early-stopping monitor 'for every history of error values' is a pure function of the history; enumerating histories "
+            "against a reference monitor would be input enumeration, not simulation, and is NOT done. The monitor is checked only through the coupling 'stored snapshot "
+            "statistics == statistics recomputed from the learners the fold model kept' and the necessary conditions on the kept per-round history of real fits",
+            "order statistics of the recomputed per-sample values use the library's own store_stats (C20); splitters are recomputed with the same splitter (C12)",
+            "gradient-boosting fold statistics are compared at 1e-8 (incrementally accumulated outputs vs a fresh prediction), everything else at 1e-9",
+        ],
+    },
 }
